@@ -8,6 +8,7 @@ from ..pe import Evaluator, ListV, Tag
 from ..src import Inconclusive, calls, method_calls, render, walk, walk_with_parents
 from ..tables import AST, ATTR, EXPAND, IMPL_FILES, VALIDATE
 
+TECHNIQUE = "static analysis: syntactic enumeration of panic-capable sites + reachability by partial evaluation over root regions + discharge table with machine-checked witnesses; thorough tier adds a rustc_private MIR driver (resolved callees / Assert terminators) as completeness cross-check"
 LEVEL = "other"
 EXPLANATION = (
     "Every panic-capable site of non-test o2o-impl code is enumerated from the syntax tree (panic!/unreachable!/todo!/assert*, unwrap/expect, index "
@@ -18,7 +19,8 @@ EXPLANATION = (
     "`render_parent` only under `!is_from`, Ghost never reaching name/action helpers). A site with a panicking leaf is an OBLIGATION keyed by "
     "site + root region (+ member-data case); it must be discharged by the table in this file (G1 library invariant, G2 validation rule — with a machine-"
     "checked witness — or G3 structural invariant with witness) or be a recorded known finding; anything else is a violation with the path condition of "
-    "the panicking leaf as replay. Index/arith/macro sites have dedicated rules (total Index<&Enum> impls with constant slots < N, position-bounded indices, f{} idents).")
+    "the panicking leaf as replay. Index/arith/macro sites have dedicated rules (total Index<&Enum> impls with constant slots < N, position-bounded indices, f{} idents). "
+    " R6 imports C11.R4's bound-list rule (parse_quote! of an empty lifetime bound list panics under syn 1). Thorough tier: R5 cross-checks the enumeration against the type-resolved MIR of both feature configurations (driver in /verif/mir).")
 NOT_DECIDED = ["panics inside syn / quote / proc-macro2 on well-typed calls (trusted base)", "stack overflow on pathologically deep input", "arithmetic overflow of usize counters"]
 
 
@@ -228,6 +230,23 @@ def w_peek_then_parse(chk, fn_name, token):
     return True if token in src else None
 
 
+def w_variant_hint_agree(chk):
+    """unreachable!('6') (tuple field without instruction under a struct-form hint) is excluded by validate_variant_fields only if validation
+    and rendering read the variant's hint from the same source with the same default: the variant's own #[type_hint] else Unspecified."""
+    repo = chk.repo
+    rv = render(repo.fn(VALIDATE, "validate_variant_fields").body).replace(" ", "")
+    re_ = render(repo.fn(EXPAND, "render_enum_line").body).replace(" ", "")
+    dv = re.findall(r"type_hint\([^()]*(?:\([^()]*\))?[^()]*\)\.map_or\(([\w:.]+),", rv)
+    de = re.findall(r"\.map_or\(([\w:.]+),\|\w+\|\w+\.type_hint\)", re_)
+    if not dv or not de:
+        return None
+    if set(dv) == {"TypeHint::Unspecified"} and set(de) == {"TypeHint::Unspecified"}:
+        return True
+    if any(re.search(r"struct_attr\.type_hint|ctx\.", d) for d in dv + de) and set(dv) != set(de):
+        return False  # one side falls back to the enum-level hint, the other to Unspecified
+    return None
+
+
 def w_guarded_unwrap(chk, fn_name, site_rx, required):
     """Every path of `fn_name` on which the unwrap matching `site_rx` can fail was entered under all `required` look-ahead results
     (atom regex -> True). Decided by partial evaluation of the function (independent of how its control flow is written)."""
@@ -300,7 +319,7 @@ TABLE = [
      lambda chk: w_c15_class(chk, ["class[untyped nested parent]", "emit[Field '{0}' should have type here, e.g. '{0}: So]", "emit[call:validate_parent_attrs]*"])),
     (r"^struct_post_init:todo!\(\)", None, "G2", "bare #[parent] on an enum variant is rejected by validation (bark_at_member_attr)", w_parent_bark),
     (r"^render_struct_line:unreachable!\('6'\)", "^Field$", "G2", "tuple field without instruction under a struct-form hint is rejected by validate_fields / validate_variant_fields (top-level hint)",
-     lambda chk: w_c15_class(chk, ["class[tuple/named mismatch (struct)]", "class[tuple/named mismatch (variant)]", "emit[Member {} should have member trait instruction w]", "emit[Member {} of a variant {} should have member tra]"])),
+     w_all(lambda chk: w_c15_class(chk, ["class[tuple/named mismatch (struct)]", "class[tuple/named mismatch (variant)]", "emit[Member {} should have member trait instruction w]", "emit[Member {} of a variant {} should have member tra]"]), w_variant_hint_agree)),
     (r"^struct_init_block_inner:unreachable!\('2'\)", "^$", "G3", "top level: struct_init_block returns early for non-From + hint Unit", w_struct_init_block_guard),
     (r"^DataType::named_fields:panic!", None, "G3", "named_fields() is only called from the struct renderers, which are entered with a (real or synthetic) Struct", w_named_fields_callers),
     (r"^validate_error_instrs:unreachable!\('13'\)", None, "G3", "error_instrs only ever holds the diagnostic variants, all of which validate_error_instrs matches",
